@@ -28,6 +28,7 @@ from asl.absint import UNKNOWN, STOP, AbsEval, Machine
 from asl.cfg import Node, cfg_of
 from asl.flow import find_path, pretty_path, reachable
 from asl.loader import AnalysisError, norm, own_nodes
+from .common import make_resolver
 
 LEVEL = {
     "decided": "C14: (R14.1) registration and unwind use the same end; (R14.2) __aexit__ abstractly evaluated over all "
@@ -275,7 +276,8 @@ def r14_2(ctx, end: str) -> None:
                 env = {params[0]: "SELF", params[1]: t0[0], params[2]: t0[1], params[3]: t0[2],
                        "@conts": {0: stack}, "@field": 0, "@trace": ()}
                 label = f"stack={n} outcomes={''.join(outcomes) or '-'} received={'E0' if received else 'none'}"
-                results = Machine(cfg, _UnwindOps(scenario)).run(env)
+                ops = _UnwindOps(scenario)
+                results = Machine(cfg, ops, resolver=make_resolver(ctx, u, ops, skip=("_stitch_context",))).run(env)
                 want_trace, want_exc = reference(n, outcomes, received)
                 if not results:
                     ctx.fail("R14.2", u, "__aexit__", f"[{label}] abstract evaluation produced no outcome")
